@@ -31,6 +31,39 @@ def rs_str(s):
     return "".join(out)
 
 
+def rs_lit(s, salt=0):
+    """The same string value as rs_str, written in one of the literal forms Rust offers (raw strings, \\u{..} and \\x..
+    escapes, line continuation).  The form is a deterministic function of (s, salt); the VALUE never changes."""
+    plain = rs_str(s)
+    r = random.Random("lit|%s|%s" % (s, salt))
+    x = r.random()
+    if x < 0.55 or s == "":
+        return plain
+    simple = all(ch == "\\" or rs_str(ch) == '"%s"' % ch for ch in s.replace('"', ""))
+    if x < 0.67:
+        if simple and '"' not in s:
+            return 'r"%s"' % s
+        return plain
+    if x < 0.77:
+        if simple and '"#' not in s:
+            return 'r#"%s"#' % s
+        return plain
+    if x < 0.86:
+        if any(ord(ch) >= 0x80 for ch in s):
+            return '"' + "".join(rs_str(ch)[1:-1] if ord(ch) < 0x80 else "\\u{%X}" % ord(ch) for ch in s) + '"'
+        return plain
+    if x < 0.93:
+        for i, ch in enumerate(s):
+            if ch.isascii() and ch.isalnum():
+                return '"' + "".join(rs_str(c)[1:-1] if j != i else "\\x%02x" % ord(c) for j, c in enumerate(s)) + '"'
+        return plain
+    if len(s) >= 2:
+        k = len(s) // 2
+        if not s[k].isspace():
+            return rs_str(s[:k])[:-1] + "\\\n        " + rs_str(s[k:])[1:]
+    return plain
+
+
 # --------------------------------------------------------------------------------------------
 # payload type pool: key -> (rust type, default expression, [non-default sample expressions])
 # --------------------------------------------------------------------------------------------
@@ -96,10 +129,11 @@ class Variant:
 
     def strum_items(self):
         items = []
+        lit = lambda t: rs_lit(t, self.attr_order_seed)
         for s in self.serialize:
-            items.append("serialize = " + rs_str(s))
+            items.append("serialize = " + lit(s))
         if self.to_string is not None:
-            items.append("to_string = " + rs_str(self.to_string))
+            items.append("to_string = " + lit(self.to_string))
         if self.disabled:
             items.append("disabled")
         if self.default:
@@ -114,13 +148,13 @@ class Variant:
             else:
                 items.append("ascii_case_insensitive = " + ("true" if self.aci else "false"))
         if self.message is not None:
-            items.append("message = " + rs_str(self.message))
+            items.append("message = " + lit(self.message))
         if self.detailed_message is not None:
-            items.append("detailed_message = " + rs_str(self.detailed_message))
+            items.append("detailed_message = " + lit(self.detailed_message))
         for gi, g in enumerate(self.props):
             if g:
                 tc = "," if (self.attr_order_seed + gi) % 5 == 2 else ""     # props(a = 1,) is legal
-                items.append("props(" + ", ".join("%s = %s" % (k, render_prop(kind, val)) for k, kind, val in g) + tc + ")")
+                items.append("props(" + ", ".join("%s = %s" % (k, render_prop(kind, val, self.attr_order_seed)) for k, kind, val in g) + tc + ")")
             elif self.attr_order_seed % 2 == 1:
                 items.append("props()")                                      # so is an empty group
         return items
@@ -132,7 +166,7 @@ class Variant:
             if form == "///":
                 doc_lines.append("///" + text)
             elif form == "attr":
-                doc_lines.append("#[doc = %s]" % rs_str(text))
+                doc_lines.append("#[doc = %s]" % rs_lit(text, self.attr_order_seed))
             else:
                 doc_lines.append("/**" + text + "*/")
         # doc attributes may be interrupted by other attributes: all of them still belong to the variant's documentation
@@ -224,9 +258,9 @@ class Variant:
         return out
 
 
-def render_prop(kind, val):
+def render_prop(kind, val, salt=0):
     if kind == "str":
-        return rs_str(val)
+        return rs_lit(val, salt)
     if kind == "int":
         return str(val)
     if kind == "intlit":       # (source spelling, value)
@@ -287,7 +321,7 @@ class EnumSpec:
         if self.aci:
             items.append("ascii_case_insensitive")
         if self.prefix is not None:
-            items.append("prefix = " + rs_str(self.prefix))
+            items.append("prefix = " + rs_lit(self.prefix, self.attr_order_seed))
         if self.use_phf:
             items.append("use_phf")
         if self.parse_err is not None:
